@@ -106,7 +106,9 @@ class Repo:
                 from .inline import inline_module
                 if pinned_table().get("__modules__", {}).get(name) != hashlib.sha256(source.encode()).hexdigest()[:20]:
                     # only modules whose text differs from the recorded one can contain new helpers or renamed locals
+                    from .alpha import canonicalise_module
                     self.inlined.extend(f"{name}:{q}" for q in inline_module(name, tree))
+                    self.alpha_normalised.extend(f"{name}:{q}" for q in canonicalise_module(name, tree))
                     self.alpha_normalised.extend(f"{name}:{q}" for q in normalise_module(name, tree))
                 _set_parents(tree)
                 mod = Module(name=name, path=path, rel=rel, source=source, tree=tree)
